@@ -58,7 +58,7 @@ def read_pte_table(path):
     """-> [(pattern, message (blanks stripped, \\" unescaped), params tuple (1..4 only))] in file order"""
     out = []
     inside = False
-    with open(path) as f:
+    with open(path, encoding='utf-8') as f:
         for line in f:
             if 'static_pte_entry_table' in line and '=' in line:
                 inside = True
@@ -79,7 +79,7 @@ def read_pte_table(path):
 
 
 def declared_pte_table_size(path):
-    with open(path) as f:
+    with open(path, encoding='utf-8') as f:
         for line in f:
             p = line.split()
             if len(p) == 3 and p[0] == '#define' and p[1] == 'PTE_TABLE_SIZE':
@@ -91,7 +91,7 @@ def read_hlog_fields(path):
     """-> [(name, size)] in file order"""
     out = []
     inside = False
-    with open(path) as f:
+    with open(path, encoding='utf-8') as f:
         for line in f:
             if 'mex_hlog_fields' in line and '=' in line:
                 inside = True
@@ -132,5 +132,5 @@ def write_header(path, pte_entries=(), hlog_fields=(), static=True, brace_same_l
     for name, size in hlog_fields:
         L.append('  { %d, "%s" }, ' % (size, name))
     L += ['};', '']
-    with open(path, 'w') as f:
+    with open(path, 'w', encoding='utf-8') as f:
         f.write('\n'.join(L))
